@@ -133,6 +133,55 @@ func main() {
 			fmt.Print(l)
 		}
 		fmt.Println()
+	case "bmfull":
+		// bmfull "<rsize>;<N>:<M>:<R>:<O>:<op+op+...>,...;I,O,P0,...;bonds" : every module of the machine
+		parts := strings.Split(os.Args[2], ";")
+		bm := new(bondmachine.Bondmachine)
+		bm.Rsize = uint8(atoi(parts[0]))
+		for _, d := range strings.Split(parts[1], ",") {
+			f := strings.Split(d, ":")
+			bm.Domains = append(bm.Domains, mkMachine(int(bm.Rsize), atoi(f[2]), atoi(f[0]), atoi(f[1]), 0, atoi(f[3]), strings.ReplaceAll(f[4], "+", ",")))
+		}
+		bm.Init()
+		for _, h := range strings.Split(parts[2], ",") {
+			switch {
+			case h == "I":
+				bm.Add_input()
+			case h == "O":
+				bm.Add_output()
+			case strings.HasPrefix(h, "P"):
+				bm.Add_processor(atoi(h[1:]))
+			}
+		}
+		if len(parts) > 3 {
+			for _, b := range strings.Split(parts[3], ",") {
+				if b != "" {
+					e := strings.Split(b, ">")
+					bm.Add_bond([]string{e[0], e[1]})
+				}
+			}
+		}
+		conf := new(bondmachine.Config)
+		pconf := new(procbuilder.Config)
+		ri := new(procbuilder.RuntimeInfo)
+		ri.Init()
+		pconf.Runinfo = ri
+		section("main", bm.Write_verilog_main(conf, "bondmachine", "iverilog"))
+		for i, d := range bm.Processors {
+			n := strconv.Itoa(i)
+			mach := bm.Domains[d]
+			section("proc"+n, mach.Conproc.Write_verilog(pconf, &mach.Arch, "p"+n, "iverilog"))
+			section("rom"+n, mach.Rom.Write_verilog(mach, "p"+n+"rom", "iverilog"))
+			section("arch"+n, mach.Arch.Write_verilog("a"+n, map[string]string{"processor": "p" + n, "rom": "p" + n + "rom", "ram": "p" + n + "ram"}, "iverilog"))
+			fmt.Printf("//@@INFO p%s.maxword=%d p%s.opbits=%d p%s.ops=", n, mach.Max_word(), n, mach.Opcodes_bits(), n)
+			for k, op := range mach.Op {
+				if k > 0 {
+					fmt.Print("+")
+				}
+				fmt.Print(op.Op_get_name())
+			}
+			fmt.Println()
+		}
 	default:
 		os.Exit(2)
 	}
